@@ -447,7 +447,7 @@ fn forge(net: &Net, to: Addr, from: Addr, kind: u8, a: i32, b: i32, bytes: &[u8]
         }
     };
     // kinds 0-3, 8, 9 keep the sender's real magic and address
-    let authentic_looking = matches!(kind, 0..=3 | 8 | 9);
+    let authentic_looking = matches!(kind, 0..=3 | 8 | 9 | 12 | 13);
     let push = |m: MMessage| {
         net.borrow_mut().inject(from, to, from_mirror(&m), authentic_looking);
         true
@@ -456,12 +456,14 @@ fn forge(net: &Net, to: Addr, from: Addr, kind: u8, a: i32, b: i32, bytes: &[u8]
         // wrong number of connection statuses
         0 => {
             let Some(mut m) = tin else { return false };
-            if let MBody::Input { peer_connect_status, .. } = &mut m.body {
+            if let MBody::Input { peer_connect_status, ack_frame, .. } = &mut m.body {
                 let want = a.max(0) as usize;
                 if want == nplayers {
                     return false;
                 }
                 peer_connect_status.resize(want, MConn { disconnected: false, last_frame: -1 });
+                // ... and possibly an acknowledgement ahead of the truth, which must not be acted upon either
+                *ack_frame += b.clamp(0, 60);
             }
             push(m)
         }
@@ -577,6 +579,32 @@ fn forge(net: &Net, to: Addr, from: Addr, kind: u8, a: i32, b: i32, bytes: &[u8]
             let nonce = 0x0bad_0000u32 ^ (b as u32).wrapping_mul(2654435761);
             let body = if kind == 10 { MBody::SyncRequest { random_request: nonce } } else { MBody::SyncReply { random_reply: nonce } };
             push(MMessage { header: MHeader { magic }, body })
+        }
+        // copy of the last real input packet whose payload is not a valid encoding AND whose connection-status
+        // table claims that player `a` is disconnected since frame `b`: a malformed packet must not change the
+        // receiver's connection state
+        12 => {
+            let Some(mut m) = tin else { return false };
+            if let MBody::Input { bytes: bb, peer_connect_status, .. } = &mut m.body {
+                *bb = if bytes.is_empty() { vec![0x80] } else { bytes.to_vec() };
+                let n = peer_connect_status.len().max(1);
+                let j = (a.unsigned_abs() as usize) % n;
+                if let Some(c) = peer_connect_status.get_mut(j) {
+                    c.disconnected = true;
+                    c.last_frame = b.max(0);
+                }
+            }
+            push(m)
+        }
+        // copy of the last real input packet with a malformed payload and an acknowledgement `b` frames ahead of
+        // the truth: must not be acted upon
+        13 => {
+            let Some(mut m) = tin else { return false };
+            if let MBody::Input { bytes: bb, ack_frame, .. } = &mut m.body {
+                *bb = if bytes.is_empty() { vec![0x80] } else { bytes.to_vec() };
+                *ack_frame += b.clamp(1, 60);
+            }
+            push(m)
         }
         _ => false,
     }
